@@ -41,6 +41,9 @@ def run():
             "unwind 2 with unwinding assertions on",
         ],
         outside=["kernel fcntl semantics", "rayon scheduling of run_script"])
+    import oblig
+    ctx0 = oblig.Ctx()
+    oblig.install_battery(rep, ctx0, ["c20_battery"])
     src, _ = e1.prepare()
     fn = e1.source_of(src, "dedupe.rs", FUNCS)
     specs = [dict(harness=h, name="execute(%s) with refused lock" % op, functions=fn,
@@ -54,7 +57,9 @@ def run():
     from obligations import C20_e2
     from common import Inconclusive, Obligation
     try:
-        C20_e2.add(rep)
+        C20_e2.add(rep, ctx0)
+        from obligations import C20_run
+        C20_run.add(rep, ctx0.lib)
     except Inconclusive as ex:
         o = Obligation("lock semantics", "E2 mirsym/z3")
         o.verdict, o.detail = "inconclusive", str(ex)
